@@ -60,11 +60,13 @@ func run(h *common.History, kinds []string, schedule []int, direct bool) {
 		switch kd {
 		case "0":
 			s.Go("reader", func() {
-				buf := make([]byte, 16)
+				// every other reader brings a slice shorter than the packets: it gets the leading bytes with
+				// io.ErrShortBuffer, which consumes the packet like a successful read
+				buf := make([]byte, []int{16, 2}[i%2])
 				_, err := b.Read(buf)
 				var ne net.Error
 				switch {
-				case err == nil:
+				case err == nil || errors.Is(err, io.ErrShortBuffer):
 					results[i] = 0
 				case errors.Is(err, io.EOF):
 					results[i] = 2
